@@ -148,6 +148,8 @@ def correspondence(ctx, violations, known_hits):
                                        "replay_kind": "C03"})
     cli = cli_flag(ctx, violations)
     ev += cli["runs"]
+    fl = flag_lists(ctx, violations)
+    ev += fl["strings"]
     rnd, specs = gen_dbg(ctx.tier, ctx.seed)
     dcases, dtags = dbgcommon.make_cases(rnd, specs)
     rd = dbgcommon.run_dbg_cases(ctx, dcases, dtags, violations, ("debug",), aux=AUX_DBG,
@@ -156,7 +158,7 @@ def correspondence(ctx, violations, known_hits):
     ev += rd["evaluations"] + real.get("sessions", 0)
     ctx.cleanup()
     return {
-        "flag_on_the_command_line": cli,
+        "flag_on_the_command_line": cli, "flag_list_parser": fl,
         "under_the_debugger": {"in_process": {"evaluations": rd["evaluations"], "mismatches": rd["mismatches"], "stop_kinds": rd["hist"]},
                                "real_binary_without_hooks": real},
         "evaluations": r["evaluations"] + ev, "distinct_nontrivial": len(r["sigs"]) + len(sigs),
@@ -167,6 +169,41 @@ def correspondence(ctx, violations, known_hits):
         "asm_outcome_histogram": r["hist"], "vm_outcome_histogram": hist, "samples": samples,
         "mismatches": r["mismatches"] + mism, "profiles": list(profiles),
     }
+
+
+def flag_lists(ctx, violations):
+    """`Features::from_str` (the value parser behind -f / --features) against its model Feat.v: EVERY comma-joined list of
+    up to 4 (thorough: 5) elements over {empty, stack, Stack, STACK, stac, stackk, ' stack', 'stack ', heap, 's,tack'-like
+    fragments} plus random strings over the letters of `stack`, comma and blank."""
+    import itertools
+    elems = ["", "stack", "Stack", "STACK", "stac", "stackk", " stack", "stack ", "heap", "s", "\u017ftack"]
+    texts = set()
+    for n in range(0, 5 if ctx.tier == "quick" else 6):
+        for combo in itertools.product(elems, repeat=n):
+            if ctx.tier == "quick" and n == 4 and sum(1 for e in combo if e not in ("", "stack")) > 1:
+                continue
+            texts.add(",".join(combo))
+    rnd = random.Random(ctx.seed + 5)
+    for _ in range(500 if ctx.tier == "quick" else 20000):
+        texts.add("".join(rnd.choice("stack,, ST") for _ in range(rnd.randrange(0, 12))))
+    texts = sorted(texts)
+    cases = ["FEAT " + " ".join(f"{v:x}" for v in [len(t)] + [ord(c) for c in t]) for t in texts]
+    ri, rm, crashes = ctx.run_both(cases, profile="debug", tag="feat")
+    for c in crashes:
+        violations.append({"kind": "implementation-crashed", "profile": "debug", "detail": c["tail"]})
+    n = bad = 0
+    hist = {}
+    for t, case, a, b in zip(texts, cases, ri, rm):
+        if a is None:
+            continue
+        n += 1
+        hist[b[0]] = hist.get(b[0], 0) + 1
+        if a != b:
+            bad += 1
+            if bad <= 4:
+                violations.append({"kind": "flag-list", "case": case, "text": t, "implementation": a, "model": b,
+                                   "meaning": "0 accepted/off, 1 accepted/on, 2 refused"})
+    return {"strings": n, "mismatches": bad, "verdicts": hist}
 
 
 def cli_flag(ctx, violations):
@@ -181,7 +218,10 @@ def cli_flag(ctx, violations):
     open(os.path.join(d, "raw.asm"), "w").write("add r0 r0 #1\n.fill xD040\nhalt\n")          # a 0xD word reached at run time (PUSH r1)
     spellings = [(["-f", "stack"], True), (["--features", "stack"], True), (["--features=stack"], True), (["-f", "stack,"], True),
                  (["-f", ",stack"], True), (["-f", ",,stack"], True), (["-f", "stack,,"], True), (["-f", ",stack,"], True),
-                 (["-f", ""], False), (["-f", ","], False), ([], False)]
+                 (["-f", ""], False), (["-f", ","], False), ([], False),
+                 # refused by the value parser (Feat.v: None): clap ends the process with status 2 before anything is read
+                 (["-f", "stack,stack"], None), (["-f", "Stack"], None), (["-f", " stack"], None), (["-f", "stack,heap"], None),
+                 (["--features", "heap"], None), (["-f", "stack,,stack"], None)]
     ref = None
     runs = bad = 0
     for flags, on in spellings:
@@ -197,7 +237,9 @@ def cli_flag(ctx, violations):
         if on and ref is None and data is not None:
             ref = data
         text = (so_c + se_c).decode("utf-8", "replace").lower()
-        if on:
+        if on is None:
+            good = rc_check == 2 and rc_comp == 2 and data is None and rc_run == 2 and rc_raw == 2
+        elif on:
             good = rc_check == 0 and rc_comp == 0 and data is not None and data == ref and rc_run == 0 and "ok" in so_r.decode("utf-8", "replace") and rc_raw == 0
         else:
             good = rc_check != 0 and "stack" in text and rc_comp != 0 and data is None and rc_run != 0 and rc_raw == 1
@@ -209,10 +251,17 @@ def cli_flag(ctx, violations):
                                    "reference_bytes": ref.hex() if ref else None, "run_exit": rc_run, "raw_0xD_run_exit": rc_raw,
                                    "check_output": text[-300:]})
     return {"runs": runs, "spellings": len(spellings), "mismatches": bad,
-            "rule": "real binary: check / compile / run of an extension source and run of an image reaching a 0xD word, for 11 ways of writing (or not writing) the feature list"}
+            "rule": "real binary: check / compile / run of an extension source and run of an image reaching a 0xD word, for 17 ways of writing (or not writing, or miswriting) the feature list"}
 
 
 def replay(ctx, payload):
+    if payload.get("kind") == "flag-list":
+        from core import log
+        ri, rm, _ = ctx.run_both([payload["case"]], profile="debug", tag="replay")
+        log(f"feature list {payload.get('text')!r}: implementation {ri[0]}, model {rm[0]} (0 accepted/off, 1 accepted/on, 2 refused)")
+        return 0 if ri[0] == rm[0] else 1
+    if payload.get("kind") in ("real-binary-vs-model", "model-vs-implementation") and str(payload.get("case", "")).startswith("DBG"):
+        return dbgcommon.replay_dbg(ctx, payload)
     if payload.get("replay_kind") == "C03":
         return C03.replay(ctx, payload)
     return asmcommon.replay_asm(ctx, payload)
